@@ -146,6 +146,12 @@ func runOnce(c *Case, cpuBudget, wallBudget time.Duration) (res outcome, finishe
 		c.disturbed = true
 		return res, true, false
 	}
+	if res.err == nil && checkMem && res.st != nil {
+		if bound := allocBound(len(c.Data), res.st.Steps, res.st.Drained); res.st.Alloc > bound {
+			res.err = fmt.Errorf("memory: the walk of an input of %d bytes allocated %d MiB in total (%d calls into the library, %d bytes drained); bound 1 GiB + calls x 2 x StreamBudget(size) + 16 x drained + 1024 x size = %d MiB",
+				len(c.Data), res.st.Alloc>>20, res.st.Steps, res.st.Drained, bound>>20)
+		}
+	}
 	if res.err == nil && over > 0 && checkMem {
 		res.err = fmt.Errorf("memory: live heap reached %d MiB while walking an input of %d bytes (bound: 768 MiB + 64 x input = %d MiB)", over>>20, len(c.Data), limit>>20)
 	}
@@ -391,6 +397,8 @@ func classify(c *Case) (bool, []string) {
 	}
 	// how close opening comes to its read budget (64 MiB + 1000 x size)
 	add(st.OpenRead > 1<<20+100*int64(len(c.Data)), "open-read>1MiB+100x")
+	// how close the cumulative allocation comes to its bound
+	add(!c.disturbed && st.Alloc > allocBound(len(c.Data), st.Steps, st.Drained)/4, "alloc>bound/4")
 	add(st.Opened, "opened")
 	add(!st.Opened, "open-failed")
 	add(st.Opened && st.GetErrs > 0, "get-errors")
@@ -515,7 +523,7 @@ func genCase(t *rapid.T) Case {
 		// the large generated hostile files are walked unmutated only
 		for {
 			s := &all[rnd.Intn(len(all))]
-			if len(s.Data) > maxSeedLen {
+			if len(s.Data) > maxSeedLen || s.NoMutate {
 				continue
 			}
 			// the library's own documents reach deepest: they are kept
@@ -607,6 +615,12 @@ func TestSeeds(t *testing.T) {
 			}
 			if tag == "hostile" || tag == "gen" {
 				cls = append(cls, "file:"+s.Name)
+			}
+			if strings.HasPrefix(s.Name, "hostile-objstm-huge-N-") {
+				cls = append(cls, "file:hostile-objstm-huge-N")
+			}
+			if s.Name == "hostile-inline-image-header-deep-dicts.pdf" {
+				cls = append(cls, "file:hostile-inline-image-header-deep-dicts")
 			}
 			st.Eval(vt.HashBytes(c.Data, []byte{byte(mode)}), c.st != nil && c.st.Opened && c.st.Fetched > 0, cls...)
 			for _, f := range c.excluded {
